@@ -579,7 +579,7 @@ pub fn main(mode: Mode) {
                     std::process::exit(1);
                 }
             }
-            let outcome = vkit::run_prop(prop, vkit::workers_for(tier), tier.pick(3_000, 300_000), strategy, check);
+            let outcome = vkit::run_prop(prop, vkit::workers_for(tier), tier.pick(30_000, 1_000_000), strategy, check);
             let outcome = match outcome {
                 Outcome::Held if stats.distinct_nontrivial() < 2 => Outcome::Inconclusive("generator produced no non-trivial case".into()),
                 o => o,
